@@ -233,12 +233,18 @@ Section History.
     if b then mkst (heap s) (h_s s) (h_o s) (h_s s) (h_o s) (ints s) else s.
 
   (* self.points[axis] = vals on the (possibly synced) record: PackedPointRecord.__setitem__ first appends zero
-     points when the value is longer than the record *)
+     points when the value is longer than the record; a refused assignment puts the previous array back
+     (`except Exception: self.array = previous_array; raise`): the record is not left grown, it keeps the scaling it took *)
   Definition lasdata_assign (b : bool) (s : st) (a : nat) (vals : list T) : st * out :=
     let s1 := sync b s in
-    assign_rec (mkst (heap s1) (h_s s1) (h_o s1) (r_s s1) (r_o s1) (grow (ints s1) (length vals))) a vals.
+    let r := assign_rec (mkst (heap s1) (h_s s1) (h_o s1) (r_s s1) (r_o s1) (grow (ints s1) (length vals))) a vals in
+    match snd r with
+    | OErr e => (s1, OErr e)
+    | _ => r
+    end.
 
-  (* self.points[("x", "y", "z")] = value: one axis after the other, an error stops the loop (earlier axes stay assigned) *)
+  (* self.points[("x", "y", "z")] = value: one axis after the other, an error stops the loop (earlier axes stay assigned,
+     and the points they appended stay) *)
   Fixpoint assign_axes (s : st) (axes : list nat) (k : nat) (vals : list (list T)) : st * out :=
     match axes with
     | [] => (s, ONone)
